@@ -1,4 +1,4 @@
-import OrdModel.Proofs.BuilderStages
+import OrdModel.Proofs.BuilderNoPanic
 /-!
 # C20 — ordinal-aware sends never misdirect or burn inscriptions; never panic
 
@@ -158,6 +158,56 @@ theorem c20_no_panic_fails_value_below_target :
 theorem c20_no_panic_fails_value_above_target :
     build (envR 1 100) (wal [(0, 662)]) (req (p2tr 0) (0, 0) (.value 330))
       = .panic "inv:output_equals_target_value" := by decide
+
+/-! ## Partial no-panic results
+
+`c20_no_panic_partial` for the whole pipeline is not proved (notes/C20.md).  Proved: the first
+three stages (`select_outgoing`, `align_outgoing`, `pad_alignment_output`) cannot panic under
+`WF12` (outgoing UTXO non-empty *or* the sub-overflow repair present; values are u64; inscription
+offsets + dust do not overflow) and a no-overflow bound for padding. -/
+
+/-- the pipeline of `build_transaction` up to and including `pad_alignment_output` -/
+def stages123 (env : Env) (w : Wallet) (r : Request) : Outcome St := do
+  precheck env r
+  let s1 ← selectOutgoing env w r (initial w r)
+  let s2 ← alignOutgoing w r s1
+  padAlignmentOutput env w r s2
+
+theorem c20_no_panic_partial_stages123 (env : Env) (w : Wallet) (r : Request) (wf : WF12 env w r)
+    (hv : ∀ u v, w.amounts.lookup u = some v → env.dust r.change0 + v < U64) (s : String) :
+    stages123 env w r ≠ .panic s := by
+  unfold stages123
+  simp only [bind_def]
+  intro h
+  rcases bind_eq_panic.1 h with h | ⟨_, _, h⟩
+  · exact precheck_no_panic env r s h
+  rcases bind_eq_panic.1 h with h | ⟨s1, h1, h⟩
+  · exact selectOutgoing_no_panic wf s h
+  rcases bind_eq_panic.1 h with h | ⟨s2, h2, h⟩
+  · exact alignOutgoing_no_panic wf h1 s h
+  · exact padAlignmentOutput_no_panic wf hv h1 h2 s h
+
+/-- the hypotheses are satisfiable on the non-vacuity wallet above, and there the three stages
+do real work (alignment output, no padding needed) -/
+example : WF12 (envR 1 1) (wal [(0, 30000), (1, 5000)] [(0, 100), (0, 1000)]) (req (p2tr 0) (0, 1000) .postage) :=
+  ⟨Or.inr (by decide), by decide, by decide⟩
+
+/-! ## The two proposed repairs (`notes/fix-C20-*.diff`), as flags of the model -/
+
+def envFixed (num den : Nat) : Env := { envR num den with fixes := { subOverflow := true, zeroBurn := true } }
+
+/-- with `amount.saturating_sub(1)` the zero-value witness is an ordinary error -/
+theorem c20_fixed_sub_overflow :
+    build (envFixed 1 1) (wal [(0, 0)]) (req (p2tr 0) (0, 0) .postage) = .err "OutOfRange" := by decide
+
+/-- with the zero-target check a zero burn is refused for every wallet state -/
+theorem c20_fixed_zero_burn (env : Env) (w : Wallet) (r : Request) (hfix : env.fixes.zeroBurn = true)
+    (hc : r.change0 ≠ r.change1) (hop : r.recipient.opReturn = true)
+    (ht : r.target = .value 0 ∨ r.target = .exact 0) : build env w r = .err "Dust" := by
+  unfold build
+  simp [precheck, hc, hop, hfix, ht, Outcome.bind]
+
+example : build (envFixed 0 1) (wal [(8, 546)]) (req burnScript (8, 0) (.exact 0)) = .err "Dust" := by decide
 
 /-- all witnesses use monotone fee functions -/
 theorem feeRat_mono (num den : Nat) : ∀ a b, a ≤ b → feeRat num den a ≤ feeRat num den b := by
